@@ -332,6 +332,9 @@ func (fr *Frame) callBySpecCommon(fn *ssa.Function, sp *FuncSpec, sig *types.Sig
 			ps = append([]string{"C13"}, props...)
 		}
 		o := &Obl{Fn: funcName(ex.top), Kind: "requires:" + name, Pos: pos, Guard: fr.reach[fr.curBlock], Goal: t, Props: ps, Via: fr.chain, Snip: c.Src}
+		if len(c.Labels) > 0 {
+			o.Name = c.Labels[0] + "@" + funcName(ex.top)
+		}
 		ex.oblige(o)
 	}
 	// arguments must not be package-level arrays (Inv-G) for callees that may write
@@ -342,7 +345,7 @@ func (fr *Frame) callBySpecCommon(fn *ssa.Function, sp *FuncSpec, sig *types.Sig
 				if sp.MayGlobal[pn[i]] {
 					continue
 				}
-				for _, r := range refParts(a, fn.Params[i].Type()) {
+				for _, r := range escapeParts(a, fn.Params[i].Type()) {
 					fr.oblG(fr.reach[fr.curBlock], "arg.global:"+name, pos, Or(Eq(r, Null), ILt(IntLit(int64(prog.NG)), Acc("rid", r))), "C20")
 				}
 			}
@@ -513,6 +516,9 @@ func (fr *Frame) callBySpecCommon(fn *ssa.Function, sp *FuncSpec, sig *types.Sig
 		fr.assumeG(t)
 	}
 	for i, gs := range sp.GhostSets {
+		if gs.Local {
+			continue // existentially bound for callers: the location was havocked above
+		}
 		l := ghostLocs[i]
 		var v *Term
 		_, err := ex.safeEval(post, func() *Term { v = post.toGhostSort(post.eval(gs.Val), ghostSortOfArr(l.arr)); return True })
@@ -723,7 +729,17 @@ func (fr *Frame) loopDecreases(lc *loopCtx, st *State, over map[*ssa.Phi]*Term) 
 	if lc.spec != nil && lc.spec.Decreases != nil {
 		env := fr.loopEnv(lc, st, over)
 		var t *Term
-		_, err := fr.ex.safeEval(env, func() *Term { t = env.intOf(lc.spec.Decreases); return True })
+		_, err := fr.ex.safeEval(env, func() *Term {
+			v := env.eval(lc.spec.Decreases)
+			if !v.Untyped {
+				if fv := env.force(v); fv.T.Sort == SInt {
+					t = fv.T
+					return True
+				}
+			}
+			t = env.intOf(lc.spec.Decreases)
+			return True
+		})
 		if err != "" {
 			fatal("contract error in decreases of %s #%d: %s", funcName(fr.fn), lc.ordinal, err)
 		}
